@@ -75,7 +75,10 @@ func (v *VerifSupervisor) StepOne(hook func()) (VerifEvent, bool) {
 		v.s.step(ev)
 		v.s.testHookAfterStateLoad = nil
 
-		return VerifEvent(ev), true
+		// report a commit-backed variant as the table event it stands for
+		b, _ := ev.base()
+
+		return VerifEvent(b), true
 	default:
 		return 0, false
 	}
